@@ -327,13 +327,13 @@ theorem list_spec {l : LocalDB} {s : Spec} (h : Refines l s) (pfx key : Bytes) (
     l.list pfx key count dir
       = some (listSpec (fun rev => ordered rev (withPrefix s.merged pfx)) key count dir) := by
   unfold LocalDB.list Spec.merged
-  rw [listMerged_spec h.sorted_layers l.layers_length pfx key count dir hq, h.mergeMaps_eq]
+  rw [listMerged_spec h.sorted_layers pfx key count dir hq, h.mergeMaps_eq]
 
 theorem count_spec {l : LocalDB} {s : Spec} (h : Refines l s) (pfx : Bytes)
     (hq : prefixUpper pfx ≠ some emptyValue) :
     l.prefixCount pfx = some (live (withPrefix s.merged pfx)).length := by
   unfold LocalDB.prefixCount Spec.merged
-  rw [countMerged_spec h.sorted_layers l.layers_length pfx hq, h.mergeMaps_eq]
+  rw [countMerged_spec h.sorted_layers pfx hq, h.mergeMaps_eq]
 
 /-- the listed pairs are exactly the point-readable ones under the prefix. -/
 theorem Spec.WF.listed_iff {s : Spec} (h : s.WF) (pfx k v : Bytes) :
